@@ -14,7 +14,7 @@ from props.common import call, viol, hx, set_knobs
 from props import c19_meta
 from sim.objects import build, snapshot, _plain, kind_of
 from ref import fa, cfg as rcfg, pda as rpda, regexp as rrx
-from gen import fa as genfa, pda as genpda, cfg as gencfg, regexp as genrx, tm as gentm, names
+from gen import fa as genfa, pda as genpda, cfg as gencfg, regexp as genrx, tm as gentm, names, edits
 import gambatools.dfa_algorithms as da
 import gambatools.nfa_algorithms as na
 import gambatools.pda_algorithms as pa
@@ -217,7 +217,7 @@ op('check_accepts_rejects_dfa', ['dfa'], lambda A, w, w2: nb.check_automaton_acc
 op('check_accepts_rejects_nfa', ['nfa'], lambda A, w, w2: nb.check_automaton_accepts_rejects(A, w or 'ε', w2 or 'ε'), d_verdict, params=('w', 'w2'))
 op('check_accepts_rejects_cfg', ['cfg'], lambda A, w, w2: nb.check_automaton_accepts_rejects(A, w or 'ε', w2 or 'ε'), d_verdict, params=('w', 'w2'))
 op('check_accepts_rejects_regexp', ['regexp'], lambda A, w, w2: nb.check_automaton_accepts_rejects(A, w or 'ε', w2 or 'ε'), d_verdict, params=('w', 'w2'))
-op('check_nfa_to_dfa_answer', ['nfa'], lambda N: nbn.check_nfa_to_dfa_answer(N, _as_nfa(na.nfa_to_dfa(N))), d_value)
+op('check_nfa_to_dfa_answer', ['nfa'], lambda N: nbn.check_nfa_to_dfa_answer(N, _as_nfa(na.nfa_to_dfa(N))), d_feedback)
 
 
 def _as_nfa(D):
@@ -473,6 +473,9 @@ def _text_check(rng, made, sigma):
 def gen_session(rng, n_calls):
     k = rng.randint(1, 2)
     sigma = rng.sample('abcdefghijklmnopqrstuvwxyz', k)
+    if rng.random() < 0.25:
+        sigma = rng.sample(['0', '1'], k)        # the letters 0 and 1 are also the constants of the regexp syntax
+    letters = [c if c.isalpha() else 'pq'[i] for i, c in enumerate(sigma)]   # grammars need lower-case terminals
     steps = []
     kinds = {}
     used = set()
@@ -514,14 +517,31 @@ def gen_session(rng, n_calls):
     for i in range(rng.randint(2, 3)):
         a = gencfg.abstract_cnf(rng, 1, 3, k) if i == 0 else gencfg.abstract_cfg(rng, 1, 4, k)
         s, _r = gencfg.rename(a, rng)
-        tm = dict(zip(sorted(set(s['Sigma']) | {x[0] for _, rhs in s['R'] for x in rhs if x[1] == 'T'}), sigma + list('xyz')))
+        tm = dict(zip(sorted(set(s['Sigma']) | {x[0] for _, rhs in s['R'] for x in rhs if x[1] == 'T'}), letters + list('xyz')))
         s['Sigma'] = [tm[t] for t in s['Sigma']]
         s['R'] = [[A, [[tm[x[0]], 'T'] if x[1] == 'T' else x for x in rhs]] for A, rhs in s['R']]
         make(s)
     for _ in range(rng.randint(1, 2)):
         make({'kind': 'regexp', 'tree': genrx.tree(rng, rng.randint(0, 6), list(sigma))})
+    for spec in list(made):
+        if spec['kind'] in ('dfa', 'nfa', 'pda', 'cfg') and rng.random() < 0.25:
+            tw = edits.twin(rng, spec)      # differs in one component only: q0, F or the start variable
+            if tw:
+                make(tw)
+    for spec in made:
+        if spec['kind'] in ('nfa', 'pda') and rng.random() < 0.2:
+            spec['alias'] = True
     names_by_args = sorted(OPS)
-    while sum(1 for s in steps if s['op'] != 'make') < n_calls:
+    while sum(1 for s in steps if s['op'] not in ('make', 'edit')) < n_calls:
+        if rng.random() < 0.05:
+            # object-lifetime history: a made object is edited in place (by hand or by an *_in_place library function)
+            cands = [st for st in steps if st['op'] == 'make' and st['spec']['kind'] in ('dfa', 'nfa', 'pda', 'cfg')]
+            if cands:
+                st = rng.choice(cands)
+                e = edits.propose(rng, st['spec'])
+                if e:
+                    steps.append({'op': 'edit', 'args': [st['id']], 'edit': e})
+            continue
         if rng.random() < 0.12:
             tc = _text_check(rng, made, sigma)
             if tc:
@@ -550,7 +570,7 @@ def gen_session(rng, n_calls):
             st['id'] = len(kinds)
             kinds[st['id']] = o.out
         steps.append(st)
-    call_idx = [i for i, s in enumerate(steps) if s['op'] not in ('make', 'text_check')]
+    call_idx = [i for i, s in enumerate(steps) if s['op'] not in ('make', 'text_check', 'edit')]
     solo = sorted(rng.sample(call_idx, max(1, len(call_idx) // 8)))
     return {'sigma': sigma, 'steps': steps, 'solo': solo}
 
@@ -619,6 +639,23 @@ def run_case(case, env):
             except Exception as e:
                 return {'harness_error': 'cannot build %s: %r' % (step['spec'], e)}
             out['steps'].append('make')
+            out['argsigs'].append('')
+            continue
+        if name == 'edit':
+            tgt = step['args'][0]
+            d = 'edit:absent'
+            if tgt in pool:
+                set_knobs(logging=False)
+                try:
+                    edits.apply(pool[tgt], step['edit'])
+                    d = 'edit'
+                except RecursionError:
+                    d = 'edit:exc:RecursionError'
+                except Exception as e:
+                    d = 'edit:exc:' + type(e).__name__
+                set_knobs(logging=bool(case.get('logging')))
+                out['probes']['inplace_edit_between_calls'] = 1
+            out['steps'].append(d)
             out['argsigs'].append('')
             continue
         before = {k: snapshot(v) for k, v in pool.items()}
